@@ -139,6 +139,7 @@ def oracle_check(F, xi, kind, code_val, extra):
 # ------------------------------------------------------------------------------------------
 
 def run(rep):
+    from gepard import fits
     import numpy as np
     import gepard as g
     from gepard import cff, quadrature, fits
@@ -314,6 +315,9 @@ def run(rep):
                     for k in keep:
                         if k not in PAR_ORDER and k not in FREE_LIMITS:
                             th.parameters[k] = keep[k]
+                    # a non-zero sea E (all shipped sets have kaps = 0): the MB part of E is then non-zero
+                    if 'kaps' in th.parameters and rng.random() < 0.7:
+                        th.parameters['kaps'] = rng.uniform(0.3, 2.0)
                 p = dict(th.parameters)
                 pt, kw = gen_point()
                 xi, t, n = pt.xi, pt.t, is_neutron(pt)
@@ -403,6 +407,37 @@ def run(rep):
                               % (a, b, c), dict(kw=kw, parameters=base['pars']))
     except Exception as e:  # noqa: could not build the ad-hoc Hybrid classes: only the shipped ones are covered
         rep.notes.append('ad-hoc HybridFixedPoleCFF / HybridCFF theories not built: %r' % (e,))
+
+    # ---------------- sequences on ONE model instance: the same (xi, t) with another target or scale ----------------
+    # (per-instance memoisation with an incomplete key shows only here); reference = a fresh instance per evaluation
+    for trial in range(6 if quick else 60):
+        which = rng.choice(['fixed', 'free', 'gk'])
+        xi = 10 ** rng.uniform(-2.5, math.log10(0.4))
+        t = -rng.uniform(0.05, 0.9)
+        if which == 'gk':
+            mk = lambda: cff.GoloskokovKrollCFF()
+            seq = [dict(xi=xi, t=t, Q2=q) for q in rng.sample([2.0, 4.0, 10.0, 25.0], 3)]
+        else:
+            cls_ = cff.DispersionFixedPoleCFF if which == 'fixed' else cff.DispersionFreePoleCFF
+            src = rng.choice([fits.par_KM09a, fits.par_KM09b])
+
+            def mk(cls_=cls_, src=src):
+                o = cls_()
+                load(o, src)
+                return o
+            seq = [dict(xi=xi, t=t, Q2=rng.choice([2.5, 4.0]), in2particle=part) for part in rng.sample(['p', 'n', 'p', 'n'], 3)]
+        shared_obj = mk()
+        for k, kw in enumerate(seq):
+            for w in ('ReH', 'ReE', 'ReHt'):
+                with warnings.catch_warnings():
+                    warnings.simplefilter('ignore')
+                    a = real(lambda: getattr(shared_obj, w)(g.DataPoint(**kw)))
+                    b = real(lambda: getattr(mk(), w)(g.DataPoint(**kw)))
+                rep.case('sequence', (which, trial, k, w), sample=dict(model=which, step=k, kw=kw, which=w, value=a) if trial == 0 and w == 'ReH' else None)
+                if a != b and not (a != a and b != b):
+                    rep.violation('sequence/%s/%s' % (type(shared_obj).__name__, w),
+                                  '%s.%s at %s returns %r on an instance that had evaluated %s before, but %r on a fresh instance'
+                                  % (type(shared_obj).__name__, w, kw, a, seq[:k], b), dict(model=which, sequence=seq, step=k, which=w))
 
     # ---------------- GoloskokovKroll: wiring on the real objects ----------------
     gkm = cff.GoloskokovKrollCFF()
